@@ -25,6 +25,9 @@ def replay_engine(crate, scenario, oid, what, label="BOUNDED (fallback, consulte
         return out
     return eng
 
+def _hist(crate, scenario, prop, what):
+    return replay_engine(crate, scenario, "%s.history.%s" % (prop, scenario), what, label="HISTORY REPLAYED ON THE REAL CODE (thorough tier; regression of a repaired defect; one history, not a proof): ")
+
 def nixtable_engine(prop, tier, work):
     """validates by execution the assumed nix signal table contract used by unit `names` (not a proof: an executed table check)"""
     out = {"obligations": {}, "violations": [], "tool_errors": [], "cmds": [], "trusted": [], "functions": [], "coverage": {}}
@@ -103,11 +106,18 @@ PROPS = {
                 claim="from_unix_str_impl, from_windows_str, FromStr::from_str, Display::fmt proved by Verus equal to a parse/display spec on which case-insensitivity, agreement of short/long/number spellings and display round trip are lemmas; Signal::{from(i32),to_nix,from_nix} and ProcessEnd::from(ExitStatus)/into_exitstatus proved by Kani for all 2^32 raw values and all enum values (function contracts on thin wrappers, proof_for_contract)",
                 trusted="CBMC's bit-precise model of the compiled MIR incl. std::process::ExitStatus and nix::sys::signal::Signal::try_from (real code, no stubs)",
                 technique="Kani function contracts (proof_for_contract) on the real conversion functions, full-domain symbolic inputs"),
-    "C16": dict(units=[], engines=[_kani.make_engine("signals"), _kani.make_engine("events")], level="proof",
+    "C16": dict(units=[], engines=[_kani.make_engine("signals"), _kani.make_engine("events"),
+                                   replay_engine("events", "fs_kind_json_roundtrip_exhaustive", "C16.fs_kind.json_roundtrip_every_kind",
+                                                 "every filesystem event kind: Event -> real serde_json text -> Event is the identity and the text has kind=fs, simple, full=<Debug name>",
+                                                 label="EXHAUSTIVE EXECUTION over a finite domain (all 41 kinds; the enumeration's matches have no wildcard, so a new variant is a build error) on the real code incl. the serde layer: complete for this clause, not a proof: "),
+                                   replay_engine("events", "finite_tags_json_roundtrip_exhaustive", "C16.finite_tags.json_roundtrip",
+                                                 "all sources, keyboard eof, all file types on a path tag, payload-free completions: Event -> real serde_json text -> Event is the identity",
+                                                 label="EXHAUSTIVE EXECUTION over finite tag payloads on the real code incl. the serde layer: ")],
+                level="proof",
                 back_ends=["kani 0.68 / cbmc 6.11 (loop-free harnesses over full-domain symbolic inputs: complete, not bounded)"],
                 assumptions=["the serde-derive layer and serde_json (field names, kebab-case renames, skip_serializing_if, untagged SerdeSignal) are NOT decided: pinned only by the existing snapshot tests",
                              "paths: a fixed empty PathBuf stands for every path (its bytes are moved, never inspected, by the conversions)",
-                             "filesystem event kind names (format!/55-row string match) are decided in the Verus unit `names`",
+                             "filesystem event kind names (format!(\"{:?}\") against the 41-row string match) cannot be brought under Kani (format!) or Verus (string bytes): decided by exhaustive execution of all 41 kinds on the real code, labelled as such",
                              "Event metadata HashMap<->BTreeMap conversion is std's collect(): not under contract"],
                 claim="Tag<->SerdeTag conversions proved by Kani for every non-fs tag kind over full value ranges; an arbitrary tag object (all optional fields symbolic) never panics and yields its own kind or the explicit Unknown tag",
                 trusted="CBMC's bit-precise model of the compiled MIR (real code incl. the unsafe new_unchecked calls, no stubs)",
@@ -189,3 +199,21 @@ PROPS = {
                 claim="GlobsetFilterer::check_event (per-path closure and outer structure) and WatchexecFilterer::check_event (fs-event kind gate, loop invariant) proved by Verus equal to the documented rule; ignore precedence, empty-config and monotonicity lemmas proved on the spec",
                 trusted="stand-ins in prelude/globset_env.rs"),
 }
+
+# thorough tier: real-code replays of the histories behind the repaired defects (see known_findings.jsonl), and bounded executions
+PROPS["C09"]["thorough_engines"] = [_hist("supervisor", "next_ending_pending", "C09", "to_wait() on a never-started job resolves at once")]
+PROPS["C07"]["thorough_engines"] = [_hist("supervisor", sc, "C07", w) for sc, w in [
+    ("graceful_stop_exit_in_grace", "the graceful-stop ticket resolves when the child exits inside the grace period"),
+    ("try_graceful_restart_spawn_fails", "the try-restart ticket resolves when the respawn fails"),
+    ("two_waiters_one_ticket", "every task awaiting a clone of one ticket is woken"),
+    ("drop_last_handle_idle", "dropping the last handle of an idle job ends the job task cleanly"),
+    ("ticket_outlives_handles", "a ticket outliving all handles resolves")]]
+PROPS["C06"]["thorough_engines"] = [_hist("supervisor", "try_graceful_restart_once", "C06", "a graceful try-restart past its deadline starts the replacement exactly once")]
+PROPS["C03"]["thorough_engines"] = [_hist("ignorefiles", sc, "C03", w) for sc, w in [
+    ("prefix_sibling_negation", "a negation in test/.gitignore does not leak into tests/"),
+    ("prefix_sibling_shadow", "a hit in test/.gitignore does not shadow the root file for tests/")]]
+PROPS["C13"]["thorough_engines"] = [_hist("lib", sc, "C13", w) for sc, w in [
+    ("watcher_kind_change_keeps_paths", "after a watcher kind change the configured paths are registered with the new watcher"),
+    ("mode_change_after_failed_unwatch", "a path whose mode changed while its unwatch failed stays registered after a later change"),
+    ("change_during_apply_is_not_lost", "a configuration change made while the previous one is being applied is applied")]]
+PROPS["C18"]["thorough_engines"] = PROPS["C18"]["fallback"]
